@@ -4,6 +4,7 @@ Correspondence: real `pde.trackers.interrupts` classes vs `PdeVerif.Interrupts` 
 adaptive adversarial query sequences; exact (Rat) for dyadic parameters, bit-exact (Float)
 for decimal ones.  Monitor: the property statement itself on the real answers."""
 import math
+from fractions import Fraction
 
 import numpy as np
 
@@ -12,9 +13,11 @@ from harness.common.num import q, qs, fbits, unfbits, unq
 PID = "C09"
 LEVEL = "proof"
 REQUIRED_THEOREMS = [
-    "constant_schedule", "runConst_spec", "constNext_minimal", "runLog_spec", "runLog_increasing",
-    "runLog_period", "fixed_schedule", "remNext_first_not_passed", "fixed_exhausted_forever",
+    "constant_schedule", "runConst_spec", "constNext_minimal", "runLog_spec", "runLog_gaps", "logarithmic_schedule",
+    "runLog_increasing", "runLog_period", "fixed_schedule", "remNext_first_not_passed", "fixed_exhausted_forever",
     "runGeom_spec", "runGeom_ge_query", "geomNext_spec", "geomSearch_terminates", "geom_tmin_equiv",
+    "geomCode_step", "runGeomCode_spec", "geometric_code_schedule", "geomCode_exact_is_least", "geomCode_no_skip",
+    "powInt_eq_zpow",
 ]
 RULE = ("schedules of the four deterministic interrupt classes with seed-derived parameters "
         "(dyadic: compared exactly with the Rat model; decimal: compared bit-exactly with the Float "
@@ -23,10 +26,14 @@ RULE = ("schedules of the four deterministic interrupt classes with seed-derived
         "(kind, parameters, query list) and non-trivial if it has >= 2 queries and at least one "
         "catch-up, skip, tie or exhaustion branch was taken")
 ASSUMPTIONS = [
-    "float log/ceil/pow of GeometricInterrupts are external (libm); compared with the exact model up to 1e-9, "
-    "a differing exponent is tolerated only within 1e-9 of a lattice point and only if the monitor holds",
+    "float log and pow of GeometricInterrupts are external (libm / numpy): the value ceil(log(t_min/scale)/log(factor)) "
+    "enters the model of the code's computation (runGeomCode) as an oracle value recovered from the real answer; the "
+    "driver checks for every call that it is a ceiling of the logarithm of the model's own t_min up to a relative "
+    "tolerance 1e-9 (CeilLogOK), which is the hypothesis of the theorems; the specification model (least lattice "
+    "point) is compared as well, up to 1e-9, until the first +-1 exponent tie",
     "RealtimeInterrupts is excluded by the property (not deterministic)",
 ]
+GEOM_EPS = 1e-9  # relative tolerance of the logarithm oracle (the theorems need (1+eps) < sqrt(factor))
 TRUSTED_EXTRA = ["IEEE double arithmetic of Lean's Float equals CPython's float for + - * / floor"]
 
 
@@ -118,78 +125,95 @@ def next_query(rng, t, last_answer, scale_hint, hist, later_entries=()):
     return a + scale_hint * rng.choice([100, 1000, 12345.5, 1e5])
 
 
+class RealRaised(Exception):
+    """the real class raised on a valid schedule: (queries so far, answers so far, text)"""
+
+
 def real_run(kind, p, t0, n_queries, rng, hist, via_parse=False, use_copy=False, queries=None):
     """run the real class; returns (queries, answers) with answers[0] = initialize(t0)"""
-    obj = make(kind, p, via_parse, use_copy)
-    a0 = float(obj.initialize(t0))
-    answers = [a0]
-    qsx = []
-    t = t0
-    scale_hint = {"constant": p.get("dt"), "logarithmic": p.get("dt_initial"),
-                  "fixed": (sum(abs(x) for x in p.get("interrupts", [])) / max(1, len(p.get("interrupts", []))) or 1.0) if kind == "fixed" else 1.0, "geometric": p.get("scale")}[kind]
-    if queries is None:
-        for _ in range(n_queries):
-            later = [x for x in p.get("interrupts", []) if x >= t] if kind == "fixed" else ()
-            tq = next_query(rng, t, answers[-1], scale_hint, hist, later)
-            if kind == "geometric" and tq > 0 and math.log(tq / p["scale"]) > 400 * math.log(p["factor"]):
-                tq = t
-            if kind == "geometric" and tq > 1e15:
-                tq = t
-            if kind == "logarithmic" and len(qsx) > 60:
-                break
-            qsx.append(tq)
-            answers.append(float(obj.next(tq)))
-            t = tq
-    else:
-        for tq in queries:
-            qsx.append(tq)
-            answers.append(float(obj.next(tq)))
+    qsx, answers = [], []
+    try:
+        obj = make(kind, p, via_parse, use_copy)
+        a0 = float(obj.initialize(t0))
+        answers.append(a0)
+        t = t0
+        scale_hint = {"constant": p.get("dt"), "logarithmic": p.get("dt_initial"),
+                      "fixed": (sum(abs(x) for x in p.get("interrupts", [])) / max(1, len(p.get("interrupts", []))) or 1.0) if kind == "fixed" else 1.0, "geometric": p.get("scale")}[kind]
+        if queries is None:
+            for _ in range(n_queries):
+                later = [x for x in p.get("interrupts", []) if x >= t] if kind == "fixed" else ()
+                tq = next_query(rng, t, answers[-1], scale_hint, hist, later)
+                if kind == "geometric" and tq > 0 and math.log(tq / p["scale"]) > 400 * math.log(p["factor"]):
+                    tq = t
+                if kind == "geometric" and tq > 1e15:
+                    tq = t
+                if kind == "logarithmic" and len(qsx) > 60:
+                    break
+                qsx.append(tq)
+                answers.append(float(obj.next(tq)))
+                t = tq
+        else:
+            for tq in queries:
+                qsx.append(tq)
+                answers.append(float(obj.next(tq)))
+    except Exception as exc:  # a valid schedule must answer: reported as a failure of the property, not of the check
+        raise RealRaised(qsx, answers, f"{type(exc).__name__}: {exc}"[:300])
     return qsx, answers
 
 
 # ------------------------------------------------------------------------------------------
-def monitor(kind, p, t0, queries, answers):
-    """the property statement on the real answers; returns None or a description"""
+def monitor(kind, p, t0, queries, answers, exact=False):
+    """the property statement on the real answers; returns None or (symptom, description).  `exact`: dyadic
+    parameters - the float arithmetic of the constant schedule is exact, lattice membership is judged exactly"""
+    from fractions import Fraction
     ts = [t0] + list(queries)
     prev = None
     exhausted = False
     tol = lambda x: 1e-12 * max(1.0, abs(x))
     for i, (t, a) in enumerate(zip(ts, answers)):
         if math.isnan(a):
-            return f"answer {i} is nan"
+            return "nan", f"answer {i} is nan"
         if exhausted and not math.isinf(a):
-            return f"answer {i}={a} after the schedule was exhausted"
+            return "finite-after-exhausted", f"answer {i}={a} after the schedule was exhausted"
         if math.isinf(a):
-            if kind != "fixed":
-                return f"answer {i} is infinite for a {kind} schedule"
+            if kind != "fixed" or a < 0:
+                return "infinite", f"answer {i} is {a} for a {kind} schedule"
             exhausted = True
             continue
-        if a < t - tol(t):
-            return f"answer {i}={a!r} earlier than query {t!r}"
+        if not (a >= t - tol(t)):
+            return "earlier-than-query", f"answer {i}={a!r} earlier than query {t!r}"
         if prev is not None and not a > prev:
-            return f"answer {i}={a!r} not later than previous answer {prev!r}"
+            return "not-strictly-later", f"answer {i}={a!r} not later than previous answer {prev!r}"
         prev = a
     fin = [a for a in answers if not math.isinf(a)]
     if kind == "constant":
         base = answers[0]
         exp0 = t0 if p.get("t_start") is None else max(t0, p["t_start"])
         if base != exp0:
-            return f"first action time {base!r} != {exp0!r}"
+            return "first-action-time", f"first action time {base!r} != {exp0!r}"
         for i, a in enumerate(fin):
+            if exact:
+                k = (Fraction(a) - Fraction(base)) / Fraction(p["dt"])
+                if k.denominator != 1:
+                    return "off-lattice", f"answer {i}={a!r} not on lattice {base!r}+k*{p['dt']!r} (k={float(k)!r}, exactly)"
+                continue
             k = (a - base) / p["dt"]
-            if abs(k - round(k)) > 1e-7 * max(1.0, abs(k)):
-                return f"answer {i}={a!r} not on lattice {base!r}+k*{p['dt']!r} (k={k!r})"
+            if not (abs(k - round(k)) <= 1e-9 * max(1.0, abs(k))):
+                return "off-lattice", f"answer {i}={a!r} not on lattice {base!r}+k*{p['dt']!r} (k={k!r})"
     if kind == "geometric":
         for i, a in enumerate(fin):
+            if not a > 0:
+                return "off-lattice", f"answer {i}={a!r} is not positive"
             k = math.log(a / p["scale"]) / math.log(p["factor"])
-            if abs(k - round(k)) > 1e-7 * max(1.0, abs(k)) or round(k) < 0:
-                return f"answer {i}={a!r} not on lattice {p['scale']!r}*{p['factor']!r}^k (k={k!r})"
+            # the answer is scale*factor**k computed by one pow and one product: a few ulp, i.e. |dk| ~ 1e-15/log(f)
+            if not (abs(k - round(k)) <= 1e-12 * max(1.0, abs(k)) / min(1.0, math.log(p["factor"]))) or round(k) < 0:
+                return "off-lattice", f"answer {i}={a!r} not on lattice {p['scale']!r}*{p['factor']!r}^k (k={k!r})"
     if kind == "logarithmic":
         for j in range(1, len(fin)):
             nominal = p["dt_initial"] * p["factor"] ** (j - 1)
             gap = fin[j] - fin[j - 1]
-            if gap < nominal * (1 - 1e-9) - 1e-12 * abs(fin[j]):
-                return f"gap {j}={gap!r} smaller than nominal {nominal!r}"
+            if not (gap >= nominal * (1 - 1e-9) - 1e-12 * abs(fin[j])):
+                return "gap-too-small", f"gap {j}={gap!r} smaller than nominal {nominal!r}"
     if kind == "fixed":
         lst = [float(x) for x in p["interrupts"]]
         pos = 0  # entries consumed
@@ -200,8 +224,47 @@ def monitor(kind, p, t0, queries, answers):
             exp = lst[pos] if pos < len(lst) else math.inf
             pos += 1
             if a != exp:
-                return f"answer {i}={a!r} is not the first not-yet-passed entry {exp!r} for query {t!r}"
+                return "not-first-not-yet-passed", f"answer {i}={a!r} is not the first not-yet-passed entry {exp!r} for query {t!r}"
     return None
+
+
+ABSORPTION = "dt below the float spacing at t (t + dt == t)"
+
+
+def failure_key(kind, p, answers, symptom, desc):
+    """key of a monitor failure: schedule class + symptom; the corner `ABSORPTION` is named only if it is
+    recognised on the failing answers (the period no longer changes the previous answer when added to it)"""
+    key = {"kind": kind, "symptom": symptom}
+    if kind in ("constant", "logarithmic"):
+        key["call_site"] = "ConstantInterrupts.next"
+    if symptom == "not-strictly-later" and kind in ("constant", "logarithmic"):
+        fin = [a for a in answers if math.isfinite(a)]
+        for i in range(1, len(fin)):
+            if not fin[i] > fin[i - 1]:
+                d = p["dt"] if kind == "constant" else p["dt_initial"] * p["factor"] ** (i - 1)
+                if fin[i] == fin[i - 1] and fin[i - 1] + d == fin[i - 1]:
+                    key["corner"] = ABSORPTION
+                break
+    return key
+
+
+def judge(case, answers):
+    """monitor failure dict for a case, or None"""
+    bad = monitor(case["kind"], case["params"], case["t0"], case["queries"], answers, exact=case.get("numbers") == "Q")
+    if bad is None:
+        return None
+    symptom, desc = bad
+    return {"leg": "monitor", "case": case, "observed": {"answers": answers, "problem": desc},
+            "expected": "answers >= query, strictly increasing, on the defining set",
+            "what": f"{case['kind']}: {symptom}",
+            "key": failure_key(case["kind"], case["params"], answers, symptom, desc)}
+
+
+def raised_failure(case, exc):
+    qsx, answers, text = exc.args
+    return {"leg": "monitor", "case": dict(case, queries=list(qsx)), "observed": {"answers": answers, "raised": text},
+            "expected": "an answer", "what": f"{case['kind']}: raised",
+            "key": {"kind": case["kind"], "symptom": "raised"}}
 
 
 def branch_flags(kind, p, t0, queries, answers):
@@ -242,6 +305,44 @@ def model_request(kind, p, t0, queries, mode):
     if kind == "geometric":
         a["fuel"] = 6000
     return a
+
+
+def geomcode_request(p, t0, queries, answers):
+    """request for `c09.geomcode` (the code's own computation with the logarithm as an oracle), or None if no
+    oracle value can be recovered from the real answers (the monitor reports those)"""
+    exps = []
+    for a in answers:
+        if not (math.isfinite(a) and a > 0):
+            return None
+        exps.append(round(math.log(a / p["scale"]) / math.log(p["factor"])))
+    return {"scale": q(p["scale"]), "factor": q(p["factor"]), "sq": q(p["factor"] ** 0.5), "sq_inv": q(p["factor"] ** -0.5),
+            "eps": q(Fraction(1, 10 ** 9)), "t0": q(t0), "queries": [q(x) for x in queries], "exps": exps}
+
+
+def compare_geomcode(ctx, p, answers, resp, case):
+    """the real answers against the model of the code's computation: every answer is the lattice point of its
+    oracle value (to 1e-12: one float pow and one product) and every oracle value is a ceiling of the logarithm
+    of the *model's* t_min within the tolerance (both halves of CeilLogOK) - over the whole history"""
+    status, val = resp
+    if status != "ok":
+        ctx.disagree("correspondence", case, f"model error: {val}", answers, "geometric, code model")
+        return
+    if not val["consts_ok"]:
+        ctx.disagree("correspondence", case, "GeomConsts", {"factor": p["factor"]},
+                     "geometric, code model: factor**0.5 / factor**-0.5 do not satisfy the hypotheses of the theorems")
+        return
+    for i, ((tmin, ans, up, lo), a) in enumerate(zip(val["calls"], answers)):
+        m = float(unq(ans))
+        if not (abs(a - m) <= 1e-12 * abs(m)):
+            ctx.disagree("correspondence", case, {"i": i, "model": m}, {"i": i, "impl": a},
+                         "geometric, code model: answer is not scale*factor**e")
+            return
+        if not (up and lo):
+            ctx.disagree("correspondence", case, {"i": i, "t_min": float(unq(tmin)), "upper": up, "lower": lo},
+                         {"i": i, "impl": a},
+                         "geometric, code model: the exponent is not ceil(log(t_min/scale)/log(factor)) within 1e-9")
+            return
+    ctx.hist("geometric code model", "whole history tied")
 
 
 def compare(ctx, kind, p, t0, queries, answers, resp_q, resp_f, case):
@@ -306,6 +407,33 @@ def compare(ctx, kind, p, t0, queries, answers, resp_q, resp_f, case):
         ctx.hist("exact-vs-float", "parted-at-a-rounding-tie")
 
 
+# deterministic probes of a corner in which the unchanged code violates "strictly later than the previous answer":
+# the period is below the float spacing at t, so `_t_next += dt` changes nothing (kind, params, t0, queries)
+ABSORPTION_PROBE = [
+    ("constant", {"dt": 1.0, "t_start": None}, 2.0 ** 60, [2.0 ** 60, 2.0 ** 60]),
+    ("constant", {"dt": 0.1, "t_start": None}, 1e17, [1e17]),
+    ("logarithmic", {"dt_initial": 1.0, "factor": 2.0, "t_start": None}, 2.0 ** 60, [2.0 ** 60, 2.0 ** 60]),
+]
+
+
+def absorption_probe(ctx):
+    for kind, p, t0, queries in ABSORPTION_PROBE:
+        case = {"kind": kind, "params": p, "t0": t0, "queries": queries, "numbers": "Q", "via_parse": False,
+                "use_copy": False, "probe": "absorption"}
+        ctx.count(case, nontrivial=True, leg="absorption-probe")
+        ctx.hist("absorption probe", f"{kind} dt={p.get('dt', p.get('dt_initial'))} t0={t0!r}")
+        ctx.monitor_evals += 1
+        try:
+            _, answers = real_run(kind, p, t0, 0, ctx.rng, lambda *a, **k: None, queries=queries)
+        except RealRaised as exc:
+            mf = raised_failure(case, exc)
+        else:
+            mf = judge(case, answers)
+        ctx.hist("absorption probe outcome", "property holds" if mf is None else mf["key"].get("corner", mf["what"]))
+        if mf:
+            ctx.monitor_fail(mf["leg"], mf["case"], mf["observed"], mf["expected"], mf["what"], key=mf["key"])
+
+
 def run(ctx):
     from harness.common.lean import LeanBatch
     rng = ctx.rng
@@ -323,9 +451,17 @@ def run(ctx):
         via_parse = rng.random() < 0.15
         use_copy = rng.random() < 0.15
         nq = rng.choice([1, 2, 4, 8, 16, 30])
-        queries, answers = real_run(kind, p, t0, nq, rng, ctx.hist, via_parse, use_copy)
-        case = {"kind": kind, "params": p, "t0": t0, "queries": queries, "numbers": pmode,
+        case = {"kind": kind, "params": p, "t0": t0, "queries": [], "numbers": pmode,
                 "via_parse": via_parse, "use_copy": use_copy}
+        ctx.monitor_evals += 1
+        try:
+            queries, answers = real_run(kind, p, t0, nq, rng, ctx.hist, via_parse, use_copy)
+        except RealRaised as exc:
+            mf = raised_failure(case, exc)
+            ctx.count(mf["case"], nontrivial=False, leg=f"{kind}")
+            ctx.monitor_fail(mf["leg"], mf["case"], mf["observed"], mf["expected"], mf["what"], key=mf["key"])
+            continue
+        case["queries"] = queries
         flags = branch_flags(kind, p, t0, queries, answers)
         for f in flags:
             ctx.hist("branch", f"{kind}:{f}")
@@ -333,62 +469,83 @@ def run(ctx):
         ctx.hist("n_queries", len(queries))
         ctx.count(case, nontrivial=(len(queries) >= 2 and bool(flags)), leg=f"{kind}")
         # property monitor on the real answers
-        ctx.monitor_evals += 1
-        bad = monitor(kind, p, t0, queries, answers)
-        if bad:
-            ctx.monitor_fail("monitor", case, {"answers": answers, "problem": bad},
-                             "answers >= query, strictly increasing, on the defining set", f"{kind}: schedule property",
-                             key={"kind": kind})
+        mf = judge(case, answers)
+        if mf:
+            ctx.monitor_fail(mf["leg"], mf["case"], mf["observed"], mf["expected"], mf["what"], key=mf["key"])
         iq = batch.add("c09.run", model_request(kind, p, t0, queries, "Q"))
         jf = None if kind == "geometric" else batch.add("c09.run", model_request(kind, p, t0, queries, "F"))
-        pending.append((iq, jf, kind, p, t0, queries, answers, case))
+        jg = None
+        if kind == "geometric":
+            req = geomcode_request(p, t0, queries, answers)
+            if req is None:
+                ctx.disagree("correspondence", case, "a positive finite answer", answers,
+                             "geometric, code model: no exponent can be recovered from the answers")
+            else:
+                jg = batch.add("c09.geomcode", req)
+        pending.append((iq, jf, jg, kind, p, t0, queries, answers, case))
     resps = batch.run()
-    for iq, jf, kind, p, t0, queries, answers, case in pending:
+    for iq, jf, jg, kind, p, t0, queries, answers, case in pending:
         ctx.impl_traces += 1
         compare(ctx, kind, p, t0, queries, answers, resps[iq], None if jf is None else resps[jf], case)
+        if jg is not None:
+            compare_geomcode(ctx, p, answers, resps[jg], case)
+    absorption_probe(ctx)
     if ctx.disagreements:
         ctx.disagreements.sort(key=lambda d: len(d["case"]["queries"]))
 
 
+def run_case(c, rng=None):
+    """the recorded case on the real code: monitor failure dict or None, and the answers"""
+    try:
+        _, answers = real_run(c["kind"], c["params"], c["t0"], 0, rng, lambda *a, **k: None,
+                              c.get("via_parse", False), c.get("use_copy", False), queries=c["queries"])
+    except RealRaised as exc:
+        return raised_failure(c, exc), exc.args[1]
+    return judge(c, answers), answers
+
+
 def search(ctx, broken):
     """failing-input search after a broken correspondence: run the monitor on the real code
-    over a larger fresh sample of the same generator and on the disagreeing cases"""
-    found = []
+    on the disagreeing cases and over a larger fresh sample of the same generator"""
+    from harness.common import findings
+    known = findings.load()
     rng = ctx.sub_rng("search")
     nohist = lambda *a, **k: None
     for d in broken:
         c = d.get("case") if isinstance(d, dict) else None
         if not c or "kind" not in c:
             continue
-        _, answers = real_run(c["kind"], c["params"], c["t0"], 0, rng, nohist,
-                              c.get("via_parse", False), c.get("use_copy", False), queries=c["queries"])
-        bad = monitor(c["kind"], c["params"], c["t0"], c["queries"], answers)
-        if bad:
-            found.append({"leg": "monitor", "case": c, "observed": {"answers": answers, "problem": bad},
-                          "expected": "schedule property", "what": f"{c['kind']}: schedule property",
-                          "key": {"kind": c["kind"]}})
-            return found
+        mf, _ = run_case(c, rng)
+        if mf and findings.match(PID, mf["key"], known) is None:
+            return [mf]
     for i in range(20000):
         kind = ["constant", "logarithmic", "fixed", "geometric"][i % 4]
         pmode = rng.choice(["Q", "F"])
         p = gen_params(rng, kind, pmode)
-        t0 = rng.choice([0.0, dyadic(rng)])
-        queries, answers = real_run(kind, p, t0, rng.choice([2, 5, 10, 30]), rng, nohist)
-        bad = monitor(kind, p, t0, queries, answers)
-        if bad:
-            case = {"kind": kind, "params": p, "t0": t0, "queries": queries}
-            found.append({"leg": "monitor", "case": case, "observed": {"answers": answers, "problem": bad},
-                          "expected": "schedule property", "what": f"{kind}: schedule property",
-                          "key": {"kind": kind}})
-            return found
-    return found
+        t0 = rng.choice([0.0, dyadic(rng)]) if pmode == "Q" else rng.choice([0.0, decimal(rng)])
+        case = {"kind": kind, "params": p, "t0": t0, "queries": [], "numbers": pmode}
+        try:
+            queries, answers = real_run(kind, p, t0, rng.choice([2, 5, 10, 30]), rng, nohist)
+        except RealRaised as exc:
+            return [raised_failure(case, exc)]
+        case["queries"] = queries
+        mf = judge(case, answers)
+        if mf and findings.match(PID, mf["key"], known) is None:
+            return [mf]
+    return []
 
 
 def replay(ctx, rep):
-    c = rep["case"]
-    _, answers = real_run(c["kind"], c["params"], c["t0"], 0, ctx.rng, lambda *a, **k: None,
-                          c.get("via_parse", False), c.get("use_copy", False), queries=c["queries"])
-    bad = monitor(c["kind"], c["params"], c["t0"], c["queries"], answers)
+    """re-run the recorded query history on the real class and judge the recorded symptom"""
+    c = rep.get("case")
+    if not isinstance(c, dict) or "kind" not in c or "queries" not in c:
+        print("this file records no case of C09 (nothing to re-run): cannot be replayed")
+        return False
+    mf, answers = run_case(c, ctx.rng)
     print("answers:", answers)
-    print("monitor:", bad or "holds")
-    return bad is None
+    print("monitor:", "holds" if mf is None else f"{mf['what']} | {mf['observed'].get('problem') or mf['observed'].get('raised')}")
+    what = rep.get("what")
+    if mf is not None and what is not None and mf["what"] != what:
+        print(f"the recorded symptom `{what}` is gone; the failure above is a different one")
+        return True
+    return mf is None
